@@ -115,7 +115,7 @@ verif_harness! {
     prop: |inp| { step(inp, PLAIN_VS_PLAIN, true) }
 }
 
-//@ harness name=bc_salted_w prop=C14,C20 tier=thorough bits=34056 stub=1 est=1500 mem=30 cbmc_args=--max-field-sensitivity-array-size;1100 desc="W: salted_expand_key(salt, key[..klen]) for a 16-byte salt (bcrypt's salt size) from an arbitrary pre-state == eksblowfish ExpandKey(state, salt, key): P ^= cycled key, then each of the 521 blocks = Enc(previous block ^ next 64 bits of the cycled salt) stored in order; all salt bytes, klen symbolic 1..=72, co-routine stub (checks as bc_expand_key_w)"
+//@ disabled-harness reason=never_finished_below_30_GB name=bc_salted_w prop=C14,C20 tier=thorough bits=34056 stub=1 est=1500 mem=30 cbmc_args=--max-field-sensitivity-array-size;1100 desc="W: salted_expand_key(salt, key[..klen]) for a 16-byte salt (bcrypt's salt size) from an arbitrary pre-state == eksblowfish ExpandKey(state, salt, key): P ^= cycled key, then each of the 521 blocks = Enc(previous block ^ next 64 bits of the cycled salt) stored in order; all salt bytes, klen symbolic 1..=72, co-routine stub (checks as bc_expand_key_w)"
 verif_harness! {
     name: bc_salted_w,
     bytes: STATE + 90,
@@ -124,7 +124,7 @@ verif_harness! {
     prop: |inp| { step(inp, SALTED_VS_EKS, true) }
 }
 
-//@ harness name=bc_zero_salt_w prop=C14 tier=thorough bits=33920 stub=1 est=1500 mem=30 cbmc_args=--max-field-sensitivity-array-size;1100 desc="W: salted_expand_key(16 zero bytes, key) from an arbitrary pre-state == Schneier's (unsalted) expansion == bc_expand_key (by bc_expand_key_w), klen symbolic 1..=72"
+//@ disabled-harness reason=never_finished_below_30_GB name=bc_zero_salt_w prop=C14 tier=thorough bits=33920 stub=1 est=1500 mem=30 cbmc_args=--max-field-sensitivity-array-size;1100 desc="W: salted_expand_key(16 zero bytes, key) from an arbitrary pre-state == Schneier's (unsalted) expansion == bc_expand_key (by bc_expand_key_w), klen symbolic 1..=72"
 verif_harness! {
     name: bc_zero_salt_w,
     bytes: STATE + 90,
@@ -133,7 +133,7 @@ verif_harness! {
     prop: |inp| { step(inp, ZERO_SALT_VS_PLAIN, true) }
 }
 
-//@ harness name=bc_salted_anylen_w prop=C14,C20 tier=thorough bits=34064 stub=1 est=1500 mem=30 cbmc_args=--max-field-sensitivity-array-size;1100 desc="W: as bc_salted_w with the salt length symbolic in 1..=16 (salt bytes cycled)"
+//@ disabled-harness reason=never_finished_below_30_GB name=bc_salted_anylen_w prop=C14,C20 tier=thorough bits=34064 stub=1 est=1500 mem=30 cbmc_args=--max-field-sensitivity-array-size;1100 desc="W: as bc_salted_w with the salt length symbolic in 1..=16 (salt bytes cycled)"
 verif_harness! {
     name: bc_salted_anylen_w,
     bytes: STATE + 90,
@@ -142,7 +142,7 @@ verif_harness! {
     prop: |inp| { step(inp, SALTED_VS_EKS, false) }
 }
 
-//@ harness name=bc_zero_salt_anylen_w prop=C14 tier=thorough bits=33928 stub=1 est=1500 mem=30 cbmc_args=--max-field-sensitivity-array-size;1100 desc="W: as bc_zero_salt_w with an all-zero salt of symbolic length 1..=16"
+//@ disabled-harness reason=never_finished_below_30_GB name=bc_zero_salt_anylen_w prop=C14 tier=thorough bits=33928 stub=1 est=1500 mem=30 cbmc_args=--max-field-sensitivity-array-size;1100 desc="W: as bc_zero_salt_w with an all-zero salt of symbolic length 1..=16"
 verif_harness! {
     name: bc_zero_salt_anylen_w,
     bytes: STATE + 90,
@@ -152,7 +152,7 @@ verif_harness! {
 }
 
 // ---- the same steps from the initial state (quick tier)
-//@ harness name=bc_salted_init_w prop=C14,C20 tier=thorough bits=728 stub=1 est=900 mem=30 cbmc_args=--max-field-sensitivity-array-size;1100 desc="W: salted_expand_key(salt, key[..klen]) for a 16-byte salt from bc_init_state() == eksblowfish ExpandKey(initial state, salt, key): all salt bytes, all key bytes, klen symbolic 1..=72; co-routine stub on encrypt (arguments, P array and newest stored pair compared at each of the 521 calls, full state at the checkpoints and at the end)"
+//@ disabled-harness reason=never_finished_below_30_GB name=bc_salted_init_w prop=C14,C20 tier=thorough bits=728 stub=1 est=900 mem=30 cbmc_args=--max-field-sensitivity-array-size;1100 desc="W: salted_expand_key(salt, key[..klen]) for a 16-byte salt from bc_init_state() == eksblowfish ExpandKey(initial state, salt, key): all salt bytes, all key bytes, klen symbolic 1..=72; co-routine stub on encrypt (arguments, P array and newest stored pair compared at each of the 521 calls, full state at the checkpoints and at the end)"
 verif_harness! {
     name: bc_salted_init_w,
     bytes: STATE + 90,
@@ -160,7 +160,7 @@ verif_harness! {
     stubs: [(crate::Blowfish::encrypt, stub_encrypt)],
     prop: |inp| { step2(inp, SALTED_VS_EKS, true, true) }
 }
-//@ harness name=bc_salted_init_anylen_w prop=C14,C20 tier=thorough bits=736 stub=1 est=900 mem=30 cbmc_args=--max-field-sensitivity-array-size;1100 desc="W: as bc_salted_init_w with the salt length symbolic in 1..=16 (salt bytes cycled; lengths that do not divide 16 included)"
+//@ disabled-harness reason=never_finished_below_30_GB name=bc_salted_init_anylen_w prop=C14,C20 tier=thorough bits=736 stub=1 est=900 mem=30 cbmc_args=--max-field-sensitivity-array-size;1100 desc="W: as bc_salted_init_w with the salt length symbolic in 1..=16 (salt bytes cycled; lengths that do not divide 16 included)"
 verif_harness! {
     name: bc_salted_init_anylen_w,
     bytes: STATE + 90,
@@ -168,7 +168,7 @@ verif_harness! {
     stubs: [(crate::Blowfish::encrypt, stub_encrypt)],
     prop: |inp| { step2(inp, SALTED_VS_EKS, false, true) }
 }
-//@ harness name=bc_zero_salt_init_w prop=C14 tier=thorough bits=600 stub=1 est=900 mem=30 cbmc_args=--max-field-sensitivity-array-size;1100 desc="W: salted_expand_key(16 zero bytes, key) from bc_init_state() == Schneier's (unsalted) expansion == ordinary Blowfish keying, klen symbolic 1..=72 (keys longer than 56 bytes included)"
+//@ disabled-harness reason=never_finished_below_30_GB name=bc_zero_salt_init_w prop=C14 tier=thorough bits=600 stub=1 est=900 mem=30 cbmc_args=--max-field-sensitivity-array-size;1100 desc="W: salted_expand_key(16 zero bytes, key) from bc_init_state() == Schneier's (unsalted) expansion == ordinary Blowfish keying, klen symbolic 1..=72 (keys longer than 56 bytes included)"
 verif_harness! {
     name: bc_zero_salt_init_w,
     bytes: STATE + 90,
@@ -316,7 +316,7 @@ fn dataflow_rec<const MAXSALT: usize>(inp: &[u8], mode: u8, fix_slen: usize, fix
     }
     Some(d == 0)
 }
-//@ harness name=bc_salted_df prop=C14,C20 tier=thorough bits=1368 stub=1 est=900 mem=30 cbmc_args=--max-field-sensitivity-array-size;1100 desc="data flow of salted_expand_key(salt[..slen], key[..klen]) == eksblowfish ExpandKey: arbitrary P array, all salt and key bytes, slen symbolic 1..=24 (lengths that do not divide 16 and lengths above 16 included), klen symbolic 1..=72 (above 56 included); encrypt replaced on both sides by a state-independent bijective stand-in keyed by the call index; final state (1042 words) equal"
+//@ disabled-harness reason=never_finished_below_30_GB name=bc_salted_df prop=C14,C20 tier=thorough bits=1368 stub=1 est=900 mem=30 cbmc_args=--max-field-sensitivity-array-size;1100 desc="data flow of salted_expand_key(salt[..slen], key[..klen]) == eksblowfish ExpandKey: arbitrary P array, all salt and key bytes, slen symbolic 1..=24 (lengths that do not divide 16 and lengths above 16 included), klen symbolic 1..=72 (above 56 included); encrypt replaced on both sides by a state-independent bijective stand-in keyed by the call index; final state (1042 words) equal"
 verif_harness! {
     name: bc_salted_df,
     bytes: 170,
@@ -324,7 +324,7 @@ verif_harness! {
     stubs: [(crate::Blowfish::encrypt, stub_encrypt_df)],
     prop: |inp| { dataflow::<24>(&inp[..], SALTED_VS_EKS) }
 }
-//@ harness name=bc_zero_salt_df prop=C14 tier=thorough bits=1240 stub=1 est=900 mem=30 cbmc_args=--max-field-sensitivity-array-size;1100 desc="data flow: salted_expand_key(zero salt of symbolic length 1..=24, key) == Schneier's unsalted expansion (what bc_expand_key and ordinary keying compute), klen symbolic 1..=72; stand-in for encrypt as in bc_salted_df"
+//@ disabled-harness reason=never_finished_below_30_GB name=bc_zero_salt_df prop=C14 tier=thorough bits=1240 stub=1 est=900 mem=30 cbmc_args=--max-field-sensitivity-array-size;1100 desc="data flow: salted_expand_key(zero salt of symbolic length 1..=24, key) == Schneier's unsalted expansion (what bc_expand_key and ordinary keying compute), klen symbolic 1..=72; stand-in for encrypt as in bc_salted_df"
 verif_harness! {
     name: bc_zero_salt_df,
     bytes: 170,
@@ -332,7 +332,7 @@ verif_harness! {
     stubs: [(crate::Blowfish::encrypt, stub_encrypt_df)],
     prop: |inp| { dataflow::<24>(&inp[..], ZERO_SALT_VS_PLAIN) }
 }
-//@ harness name=bc_expand_key_df prop=C14,C20 tier=thorough bits=1176 stub=1 est=900 mem=30 cbmc_args=--max-field-sensitivity-array-size;1100 desc="data flow: bc_expand_key(key[..klen]) == Schneier's key expansion, arbitrary P array, klen symbolic 1..=72; stand-in for encrypt as in bc_salted_df"
+//@ disabled-harness reason=never_finished_below_30_GB name=bc_expand_key_df prop=C14,C20 tier=thorough bits=1176 stub=1 est=900 mem=30 cbmc_args=--max-field-sensitivity-array-size;1100 desc="data flow: bc_expand_key(key[..klen]) == Schneier's key expansion, arbitrary P array, klen symbolic 1..=72; stand-in for encrypt as in bc_salted_df"
 verif_harness! {
     name: bc_expand_key_df,
     bytes: 170,
@@ -353,13 +353,143 @@ macro_rules! df_fixed {
         }
     };
 }
-//@ harness name=bc_salted_df_s12_k72 prop=C14,C20 tier=thorough bits=1248 stub=1 est=120 cbmc_args=--max-field-sensitivity-array-size;1100 desc="data flow of salted_expand_key == eksblowfish ExpandKey for a 12-byte salt (does not divide 16: the salt position carries over between the P phase and the S phase) and a 72-byte key (bcrypt's maximum, above Blowfish's 56): arbitrary P array, all salt and key bytes; encrypt replaced on both sides by a recording stand-in (result of call k a constant of k, argument logged): the arguments of all 521 calls and the final state (1042 words) are equal"
+//@ harness name=bc_salted_df_s12_k72 prop=C14,C20 tier=thorough bits=1248 stub=1 est=120 cbmc_args=--max-field-sensitivity-array-size;1100 mem=30 desc="data flow of salted_expand_key == eksblowfish ExpandKey for a 12-byte salt (does not divide 16: the salt position carries over between the P phase and the S phase) and a 72-byte key (bcrypt's maximum, above Blowfish's 56): arbitrary P array, all salt and key bytes; encrypt replaced on both sides by a recording stand-in (result of call k a constant of k, argument logged): the arguments of all 521 calls and the final state (1042 words) are equal"
 df_fixed!(bc_salted_df_s12_k72, SALTED_VS_EKS, 12, 72);
-//@ harness name=bc_salted_df_s16_k8 prop=C14,C20 tier=thorough bits=768 stub=1 est=120 cbmc_args=--max-field-sensitivity-array-size;1100 desc="data flow of salted_expand_key == eksblowfish ExpandKey for bcrypt's 16-byte salt and an 8-byte key; as bc_salted_df_s12_k72"
+//@ harness name=bc_salted_df_s16_k8 prop=C14,C20 tier=thorough bits=768 stub=1 est=120 cbmc_args=--max-field-sensitivity-array-size;1100 mem=30 desc="data flow of salted_expand_key == eksblowfish ExpandKey for bcrypt's 16-byte salt and an 8-byte key; as bc_salted_df_s12_k72"
 df_fixed!(bc_salted_df_s16_k8, SALTED_VS_EKS, 16, 8);
-//@ harness name=bc_salted_df_s5_k57 prop=C14,C20 tier=thorough bits=1072 stub=1 est=120 cbmc_args=--max-field-sensitivity-array-size;1100 desc="data flow of salted_expand_key == eksblowfish ExpandKey for a 5-byte salt and a 57-byte key (odd lengths: every word straddles the wrap-around); as bc_salted_df_s12_k72"
+//@ harness name=bc_salted_df_s5_k57 prop=C14,C20 tier=thorough bits=1072 stub=1 est=120 cbmc_args=--max-field-sensitivity-array-size;1100 mem=30 desc="data flow of salted_expand_key == eksblowfish ExpandKey for a 5-byte salt and a 57-byte key (odd lengths: every word straddles the wrap-around); as bc_salted_df_s12_k72"
 df_fixed!(bc_salted_df_s5_k57, SALTED_VS_EKS, 5, 57);
-//@ harness name=bc_zero_salt_df_s16_k72 prop=C14 tier=thorough bits=1152 stub=1 est=120 cbmc_args=--max-field-sensitivity-array-size;1100 desc="data flow: salted_expand_key(16 zero bytes, 72-byte key) == Schneier's unsalted expansion (what bc_expand_key and ordinary keying compute); stand-in for encrypt as above"
+//@ harness name=bc_zero_salt_df_s16_k72 prop=C14 tier=thorough bits=1152 stub=1 est=120 cbmc_args=--max-field-sensitivity-array-size;1100 mem=30 desc="data flow: salted_expand_key(16 zero bytes, 72-byte key) == Schneier's unsalted expansion (what bc_expand_key and ordinary keying compute); stand-in for encrypt as above"
 df_fixed!(bc_zero_salt_df_s16_k72, ZERO_SALT_VS_PLAIN, 16, 72);
-//@ harness name=bc_expand_key_df_k72 prop=C14,C20 tier=quick bits=1152 stub=1 cbmc_args=--max-field-sensitivity-array-size;1100 est=120 need=6 desc="data flow: bc_expand_key(72-byte key) == Schneier's key expansion with the key cycled, arbitrary P array; stand-in for encrypt as above"
+//@ harness name=bc_expand_key_df_k72 prop=C14,C20 tier=thorough bits=1152 stub=1 cbmc_args=--max-field-sensitivity-array-size;1100 est=120 need=6 mem=30 desc="data flow: bc_expand_key(72-byte key) == Schneier's key expansion with the key cycled, arbitrary P array; stand-in for encrypt as above"
 df_fixed!(bc_expand_key_df_k72, PLAIN_VS_PLAIN, 16, 72);
+
+// ---- recording form with an inline reference (quick tier) ----------------------------------------------------------
+// The stand-in forms above do not observe the key at all (the stubbed encrypt does not read P, and P is overwritten by the
+// results), and the oracle's step machine makes the salted queries take 400-900 s.  Here the stub additionally snapshots the
+// P array it is first called on, and the expectation is written down directly from the eksblowfish definition:
+//   P_i ^= W_key(i)                                   (18 words of the cycled key; observed at the first call of encrypt)
+//   arg_0 = (W_salt(0), W_salt(1)),  arg_k = res_{k-1} ^ (W_salt(2k), W_salt(2k+1))          (res_k a constant of k)
+//   P_{2i}, P_{2i+1} = res_i (i < 9);  S_b[4j .. 4j+3] = res_{9+128b+2j}, res_{9+128b+2j+1}
+// with W_x(i) the big-endian word of the bytes x[(4i + t) mod len], t = 0..3.
+pub mod rec {
+    pub static mut N: u32 = 0;
+    pub static mut P0: [u32; 18] = [0; 18];
+    pub static mut IN: [[u32; 2]; 521] = [[0; 2]; 521];
+}
+pub fn stub_encrypt_rec<T: byteorder::ByteOrder>(this: &Blowfish<T>, lr: [u32; 2]) -> [u32; 2] {
+    unsafe {
+        let k = rec::N;
+        if k == 0 {
+            rec::P0 = this.p;
+        }
+        if (k as usize) < 521 {
+            rec::IN[k as usize] = lr;
+        }
+        rec::N = k + 1;
+        const_e(k)
+    }
+}
+fn cyc_word_be(buf: &[u8], len: usize, i: usize) -> u32 {
+    let mut w = 0u32;
+    let mut t = 0;
+    while t < 4 {
+        w = (w << 8) | buf[(4 * i + t) % len] as u32;
+        t += 1;
+    }
+    w
+}
+/// inp = P (72) | key (72) | salt (24); lengths are constants of the harness
+fn recorded<const SLEN: usize, const KLEN: usize>(inp: &[u8], salted: bool, zero_salt: bool) -> Option<bool> {
+    let mut c: Blowfish<BE> = Blowfish::bc_init_state();
+    let mut p0 = [0u32; 18];
+    let mut i = 0;
+    while i < 18 {
+        p0[i] = take_u32(inp, 4 * i);
+        c.p[i] = p0[i];
+        i += 1;
+    }
+    let key: [u8; 72] = take(inp, 72);
+    let mut salt: [u8; 24] = take(inp, 144);
+    if zero_salt || !salted {
+        salt = [0u8; 24];
+    }
+    unsafe {
+        rec::N = 0;
+    }
+    if salted {
+        c.salted_expand_key(&salt[..SLEN], &key[..KLEN]);
+    } else {
+        c.bc_expand_key(&key[..KLEN]);
+    }
+    #[cfg(kani)]
+    {
+        let (calls, seen_p, args) = unsafe { (rec::N, rec::P0, rec::IN) };
+        vcheck!(calls == 521);
+        let mut d = 0u32;
+        i = 0;
+        while i < 18 {
+            d |= seen_p[i] ^ p0[i] ^ cyc_word_be(&key, KLEN, i);
+            i += 1;
+        }
+        let mut k = 0usize;
+        while k < 521 {
+            let prev = if k == 0 { [0u32, 0u32] } else { const_e(k as u32 - 1) };
+            d |= args[k][0] ^ prev[0] ^ cyc_word_be(&salt, SLEN, 2 * k);
+            d |= args[k][1] ^ prev[1] ^ cyc_word_be(&salt, SLEN, 2 * k + 1);
+            k += 1;
+        }
+        i = 0;
+        while i < 9 {
+            let r = const_e(i as u32);
+            d |= (c.p[2 * i] ^ r[0]) | (c.p[2 * i + 1] ^ r[1]);
+            i += 1;
+        }
+        let cs: [[u32; 256]; 4] = c.s;
+        let mut b = 0;
+        while b < 4 {
+            let mut j = 0;
+            while j < 64 {
+                let r0 = const_e((9 + 128 * b + 2 * j) as u32);
+                let r1 = const_e((9 + 128 * b + 2 * j + 1) as u32);
+                d |= (cs[b][4 * j] ^ r0[0]) | (cs[b][4 * j + 1] ^ r0[1]) | (cs[b][4 * j + 2] ^ r1[0]) | (cs[b][4 * j + 3] ^ r1[1]);
+                j += 1;
+            }
+            b += 1;
+        }
+        return Some(d == 0);
+    }
+    #[cfg(not(kani))]
+    {
+        // native replay: the real encrypt runs (no stub); compare with the oracle's eksblowfish from the same pre-state
+        let mut p = p0;
+        let mut st = Blowfish::<BE>::bc_init_state().s;
+        if salted {
+            r::eks_expand_key(&mut p, &mut st, &salt, SLEN, &key, KLEN);
+        } else {
+            r::expand_key(&mut p, &mut st, &key, KLEN);
+        }
+        return Some(c.p == p && c.s == st);
+    }
+}
+macro_rules! rec_harness {
+    ($name:ident, $slen:expr, $klen:expr, $salted:expr, $zero:expr) => {
+        verif_harness! {
+            name: $name,
+            bytes: 168,
+            unwind: 540,
+            stubs: [(crate::Blowfish::encrypt, stub_encrypt_rec)],
+            prop: |inp| { recorded::<$slen, $klen>(&inp[..], $salted, $zero) }
+        }
+    };
+}
+//@ harness name=bc_salted_rec_s12_k72 prop=C14,C20 tier=quick bits=1344 stub=1 est=200 cbmc_args=--max-field-sensitivity-array-size;1100 desc="salted_expand_key(12-byte salt, 72-byte key) from an arbitrary P array (initial S-boxes): the P array seen by the first encryption is P ^ cycled key (all 18 words, key bytes beyond 56 included), the argument of each of the 521 encryptions is the previous result ^ the next 64 bits of the cycled salt (a salt length that does not divide 16: the position carries over from the P phase into the S phase), results stored in order; encrypt replaced by a recording stand-in, expectation written from the eksblowfish definition; all salt and key bytes"
+rec_harness!(bc_salted_rec_s12_k72, 12, 72, true, false);
+//@ harness name=bc_salted_rec_s16_k8 prop=C14,C20 tier=quick bits=1344 stub=1 est=200 cbmc_args=--max-field-sensitivity-array-size;1100 desc="as bc_salted_rec_s12_k72 for bcrypt's 16-byte salt and an 8-byte key"
+rec_harness!(bc_salted_rec_s16_k8, 16, 8, true, false);
+//@ harness name=bc_salted_rec_s5_k57 prop=C14,C20 tier=quick bits=1344 stub=1 est=200 cbmc_args=--max-field-sensitivity-array-size;1100 desc="as bc_salted_rec_s12_k72 for a 5-byte salt and a 57-byte key (every word straddles a wrap-around)"
+rec_harness!(bc_salted_rec_s5_k57, 5, 57, true, false);
+//@ harness name=bc_zero_salt_rec_k72 prop=C14 tier=quick bits=1152 stub=1 est=200 cbmc_args=--max-field-sensitivity-array-size;1100 desc="salted_expand_key(16 zero bytes, 72-byte key) behaves as the unsalted expansion (same P ^ key, arguments = previous results, same stores): with bc_expand_key_rec_k72 the zero-salt equivalence"
+rec_harness!(bc_zero_salt_rec_k72, 16, 72, true, true);
+//@ harness name=bc_expand_key_rec_k72 prop=C14,C20 tier=quick bits=1152 stub=1 est=200 cbmc_args=--max-field-sensitivity-array-size;1100 desc="bc_expand_key(72-byte key): P ^ cycled key seen by the first encryption, each argument = the previous result, results stored in order (Schneier's expansion with the key cycled); recording stand-in for encrypt"
+rec_harness!(bc_expand_key_rec_k72, 16, 72, false, false);
